@@ -4,6 +4,7 @@ use crate::definitions::device_response::Document;
 use crate::definitions::issuer_signed;
 use crate::definitions::x509::X5Chain;
 use crate::definitions::DeviceAuth;
+use crate::definitions::DigestAlgorithm;
 use crate::definitions::Mso;
 use crate::definitions::{
     device_signed::DeviceAuthentication, helpers::Tag24, SessionTranscript180135,
@@ -14,6 +15,7 @@ use elliptic_curve::generic_array::GenericArray;
 use issuer_signed::IssuerSigned;
 use p256::ecdsa::Signature;
 use p256::ecdsa::VerifyingKey;
+use sha2::{Digest, Sha256, Sha384, Sha512};
 use ssi_jwk::Params;
 use ssi_jwk::JWK as SsiJwk;
 
@@ -28,6 +30,54 @@ pub fn issuer_authentication(x5chain: X5Chain, issuer_signed: &IssuerSigned) -> 
     verification_result
         .into_result()
         .map_err(Error::IssuerAuthentication)
+}
+
+/// Issuer data authentication (ISO/IEC 18013-5 9.1.2.4): the MSO must be for this document
+/// type and must contain the digest of every disclosed IssuerSignedItem.
+pub fn issuer_data_authentication(document: &Document) -> Result<(), Error> {
+    let mso_bytes = document
+        .issuer_signed
+        .issuer_auth
+        .payload
+        .as_ref()
+        .ok_or(Error::DetachedIssuerAuth)?;
+    let mso: Tag24<Mso> = cbor::from_slice(mso_bytes).map_err(|_| Error::MSOParsing)?;
+    let mso = mso.into_inner();
+    if mso.doc_type != document.doc_type {
+        return Err(Error::IssuerAuthentication(
+            "docType of the MSO does not match the docType of the document".to_string(),
+        ));
+    }
+    let Some(namespaces) = document.issuer_signed.namespaces.as_ref() else {
+        return Ok(());
+    };
+    for (namespace, items) in namespaces.iter() {
+        let digests = mso.value_digests.get(namespace).ok_or_else(|| {
+            Error::IssuerAuthentication(format!("the MSO has no digests for {namespace}"))
+        })?;
+        for item in items.iter() {
+            // The digest is computed over the IssuerSignedItemBytes, i.e. the tag 24 encoding.
+            let item_bytes = cbor::to_vec(item)?;
+            let digest = match mso.digest_algorithm {
+                DigestAlgorithm::SHA256 => Sha256::digest(&item_bytes).to_vec(),
+                DigestAlgorithm::SHA384 => Sha384::digest(&item_bytes).to_vec(),
+                DigestAlgorithm::SHA512 => Sha512::digest(&item_bytes).to_vec(),
+            };
+            let expected = digests.get(&item.as_ref().digest_id).ok_or_else(|| {
+                Error::IssuerAuthentication(format!(
+                    "the MSO has no digest for {}",
+                    item.as_ref().element_identifier
+                ))
+            })?;
+            if expected.as_ref() != digest.as_slice() {
+                return Err(Error::IssuerAuthentication(format!(
+                    "digest mismatch for {}",
+                    item.as_ref().element_identifier
+                )));
+            }
+        }
+    }
+    Ok(())
 }
 
 pub fn device_authentication(
